@@ -201,29 +201,29 @@ def r12_1_and_2(ctx):
     vmf, vm = vm_groups(ctx)
     undef = prog.macro_value('YR_UNDEFINED')
 
-    # operator string -> opcode offset, from _yr_parser_operator_to_opcode
-    opmap = {}
+    # operator string -> integer opcode: _yr_parser_operator_to_opcode evaluated on the
+    # constant operator string and EXPRESSION_TYPE_INTEGER (constant propagation through
+    # the function and whatever helpers it is built from)
     o2o = prog.fn('_yr_parser_operator_to_opcode', 'libyara/parser.c')
     ctx.require(o2o is not None, 'anchor _yr_parser_operator_to_opcode not found')
-    for n in o2o.all_nodes():
-        if n['k'] != 'if':
-            continue
-        c = fn_c = o2o.kid(n, 0)
-        if c is None or c['k'] != 'bin' or c['op'] != '==':
-            continue
-        lhs, rhs = o2o.kid(c, 0), o2o.kid(c, 1)
-        lhs = cu.strip_casts(o2o, lhs)
-        if lhs is None or lhs['k'] != 'sub' or cu.const_of(o2o.kid(lhs, 1)) != 0:
-            continue
-        ch = cu.const_of(rhs)
-        then = o2o.kid(n, 1)
-        if then is None or ch is None:
-            continue
-        # direct `opcode += K` in the then-branch (not in a nested if)
-        stmts = o2o.kids(then) if then['k'] == 'compound' else [then]
-        for s in stmts:
-            if s['k'] == 'bin' and s['op'] == '+=' and cu.const_of(o2o.kid(s, 1)) is not None:
-                opmap[chr(ch)] = cu.const_of(o2o.kid(s, 1))
+    t_int = prog.macro_value('EXPRESSION_TYPE_INTEGER')
+    ctx.require((t_int is not None or ctx.fixture) and len(o2o.params) == 2,
+                'operator map: signature / EXPRESSION_TYPE_INTEGER')
+    from .. import peval
+    _o2o_cache = {}
+
+    def int_opcode(opstr):
+        if opstr not in _o2o_cache:
+            pn = [p['name'] for p in o2o.params]
+            env = {pn[1]: t_int} if t_int is not None else {}
+            for i in range(3):
+                env['%s[%d]' % (pn[0], i)] = ord(opstr[i]) if i < len(opstr) else 0
+            try:
+                vals = peval.returns_under(o2o, env)
+            except paths.Budget:
+                vals = set([None])
+            _o2o_cache[opstr] = list(vals)[0] if len(vals) == 1 else None
+        return _o2o_cache[opstr]
     int_begin = prog.macro_value('OP_INT_BEGIN')
     ctx.require(int_begin is not None, 'macro OP_INT_BEGIN not evaluable')
 
@@ -321,8 +321,9 @@ def r12_1_and_2(ctx):
                     s = a['str']
                     if s == '\\\\' or s == '\\x5c':
                         s = '\\'
-                    if s[0] in opmap:
-                        opcodes.add(int_begin + opmap[s[0]])
+                    oc_ = int_opcode(s)
+                    if oc_:
+                        opcodes.add(oc_)
         line = folds[0][1].get('l')
         where = '%s:%s' % (g.nfile(folds[0][1]), line)
         fold_ops = set(f[0] for f in folds)
